@@ -20,6 +20,9 @@ class Read(object):
         self.text = text        # value text
         self.line = line
         self.via = via          # delegate callee text
+        self.post = None        # value text after local transformations (decode, int conversion...)
+        self.locals = set()     # local names that hold (a transformation of) these octets
+        self.also = []          # further attributes the same octets are stored into
 
     def __repr__(self):
         return '%s(%s<-%s w=%s)' % (self.kind, self.target, self.via or self.text, self.width)
@@ -30,11 +33,11 @@ _SLICE = re.compile(r'SLICE\((?P<buf>[A-Za-z_][A-Za-z0-9_]*);(?P<lo>[^;]*);(?P<h
 
 def slice_of(text, buf):
     """If `text` contains a read of buf: return (lo, hi) for buf[lo:hi] or ('i', 'i+1') for buf[i]; None otherwise."""
+    k = text.find('SLICE(%s;' % buf)
     idx = re.search(r'(?<![A-Za-z0-9_.])%s\[(-?\d+)\]' % re.escape(buf), text)
-    if idx:
+    if idx and (k < 0 or idx.start() < k):
         i = int(idx.group(1))
         return (str(i) if i else '', str(i + 1))
-    k = text.find('SLICE(%s;' % buf)
     if k >= 0:
         # parse balanced
         j = k + len('SLICE(%s;' % buf)
@@ -66,14 +69,27 @@ def mentions(text, buf):
 DELEGATES = ('MPI', 'ECPoint', 'SignatureSP', 'UserAttribute', 'Packet')
 
 
-def reader_sequence(state, buf='packet'):
+def reader_sequence(state, buf='packet', cls=None):
     """Ordered list of Read elements and consumption records from one interpreter path.
 
-    Returns (reads, problems) where problems are (kind, message, line) for consume-what-you-read / alias-then-consume."""
+    Returns (reads, problems) where problems are (kind, message, line) for consume-what-you-read / alias-then-consume.
+    `cls` (ClassInfo) lets `self.x = packet` be recognised as a call of a consuming sdproperty setter rather than an alias."""
     reads = []
     problems = []
     pending = []        # fixed reads not yet consumed: (Read, (lo, hi))
     aliased = None      # (target, line) once the buffer was stored without copy
+
+    def consuming_setter(target):
+        if cls is None or not target.startswith('self.') or '.' in target[5:]:
+            return None
+        p = cls.find_prop(target[5:])
+        if p is None:
+            return None
+        for tn in ('bytearray', 'bytes'):
+            if tn in p.setters:
+                return p.setters[tn]
+        return None
+
     for ev in state.events:
         kind = ev[0]
         if kind in ('store', 'assign'):
@@ -82,11 +98,32 @@ def reader_sequence(state, buf='packet'):
                 continue
             if val == buf:
                 if kind == 'store':
-                    aliased = (target, line)
-                    reads.append(Read('alias', target, None, val, line))
+                    cs = consuming_setter(target)
+                    if cs is not None:
+                        reads.append(Read('delegate', target, None, val, line, via='setter:%s' % cs.qualname))
+                    else:
+                        aliased = (target, line)
+                        reads.append(Read('alias', target, None, val, line))
                 continue
-            # delegate constructor inside the value, e.g. MPI(packet)
+            # the right-hand side does not touch the buffer itself: it transforms / stores a local that holds octets read earlier
+            rhs_names = ev[4] if len(ev) > 4 else frozenset()
+            if rhs_names and buf not in rhs_names:
+                src = [r for r in reads if r.target in rhs_names or (r.locals & set(rhs_names))]
+                if src:
+                    r = src[-1]
+                    if kind == 'store':
+                        if r.target is None or not r.target.startswith('self.'):
+                            r.locals.add(r.target)
+                            r.target = target
+                        else:
+                            r.also.append(target)
+                    else:
+                        r.locals.add(target)
+                    r.post = val
+                continue
             m = re.search(r'\b([A-Za-z_][A-Za-z0-9_.]*)\(%s\)' % re.escape(buf), val)
+            if m and m.group(1) in ('memoryview', 'len', 'bytes', 'bytearray'):
+                continue      # a view / copy / measurement of the buffer consumes nothing
             if m and slice_of(val, buf) is None:
                 reads.append(Read('delegate', target, None, val, line, via=m.group(1)))
                 if aliased:
@@ -94,6 +131,10 @@ def reader_sequence(state, buf='packet'):
                 continue
             sl = slice_of(val, buf)
             if sl is not None:
+                # re-reading the same not-yet-consumed slice (peek) does not start a new field
+                same = [r for r, rs in pending if rs == sl]
+                if same and kind == 'assign':
+                    continue
                 r = Read('fixed', target, None, val, line)
                 pending.append((r, sl))
                 reads.append(r)
@@ -112,17 +153,15 @@ def reader_sequence(state, buf='packet'):
             if aliased:
                 problems.append(('alias-then-consume', 'del %s removes octets from the buffer that %s still aliases' % (text, aliased[0]), line))
             if sl[0] not in ('', '0'):
-                # deletion inside the buffer (partial-length splicing); not a front consumption
                 reads.append(Read('splice', None, '%s:%s' % sl, text, line))
                 continue
             for r, rs in pending:
                 if rs[0] not in ('', '0'):
                     problems.append(('read-offset', 'read %s does not start at the front of the buffer' % r.text, r.line))
                 elif rs[1] != sl[1]:
-                    # reading a prefix of what is consumed is a skip (allowed: normalisation); reading more is an error
                     if _int(rs[1]) is not None and _int(sl[1]) is not None and _int(rs[1]) <= _int(sl[1]):
                         r.width = sl[1]
-                        r.kind = 'fixed-skip'
+                        r.kind = 'fixed-skip' if r.kind == 'fixed' else r.kind
                     else:
                         problems.append(('consume-what-you-read', 'read %s but consumed [:%s]' % (r.text, sl[1]), line))
                         r.width = sl[1]
@@ -134,9 +173,9 @@ def reader_sequence(state, buf='packet'):
         elif kind == 'call':
             ft, args, kw, line = ev[1], ev[2], ev[3], ev[4]
             allargs = list(args) + list(kw.values())
+            base = ft.split('.')[-1]
             if any(a == buf for a in allargs):
-                base = ft.split('.')[-1]
-                if base in ('parse', '_experimental_parse') or ft.split('.')[-1] in DELEGATES or ft in DELEGATES or ft.startswith('super:'):
+                if base in ('parse', '_experimental_parse') or ft.startswith('super:'):
                     reads.append(Read('delegate', None, None, '%s(%s)' % (ft, ', '.join(args)), line, via=ft))
                     if aliased:
                         problems.append(('alias-then-consume', '%s consumes from the buffer after %s was aliased to it' % (ft, aliased[0]), line))
@@ -144,8 +183,8 @@ def reader_sequence(state, buf='packet'):
                     reads.append(Read('insert', None, '-1', ft, line))
             else:
                 for a in allargs:
-                    sl = slice_of(a, buf) if mentions(a, buf) else None
-                    if sl is not None and (ft.endswith('.parse') or ft.split('.')[-1] in DELEGATES or ft.endswith('.decompress')):
+                    sl = slice_of(a, buf) if (a.startswith('SLICE(%s;' % buf) and a.endswith(')')) else None
+                    if sl is not None and (base == 'parse' or base in DELEGATES):
                         r = Read('fixed-delegate', None, None, '%s(%s)' % (ft, a), line, via=ft)
                         pending.append((r, sl))
                         reads.append(r)
